@@ -305,17 +305,20 @@ func runC12(c *an.Ctx) {
 				verbs = strings.Count(constant.StringVal(tv.Value), "%")
 			}
 			for _, a := range call.Args[1:] {
-				ast.Inspect(a, func(m ast.Node) bool {
-					if sel, ok := m.(*ast.SelectorExpr); ok {
-						switch p.FieldKey(info, sel) {
-						case "NodeBase.TemplatePath":
-							hasPath = true
-						case "NodeBase.Line":
-							hasLine = true
+				// the argument itself, or what the local it names was computed from
+				for _, o := range valueOrigins(ef, a, 0) {
+					ast.Inspect(o, func(m ast.Node) bool {
+						if sel, ok := m.(*ast.SelectorExpr); ok {
+							switch p.FieldKey(info, sel) {
+							case "NodeBase.TemplatePath":
+								hasPath = true
+							case "NodeBase.Line":
+								hasLine = true
+							}
 						}
-					}
-					return true
-				})
+						return true
+					})
+				}
 			}
 			if verbs < len(call.Args)-1 {
 				hasLine = hasLine && false
